@@ -160,7 +160,14 @@ func (e *Entropy) Read(p []byte) (int, error) {
 		e.bytes.Add(uint64(len(p)))
 		return len(p), nil
 	case EntRepeat:
-		tid, ctr = 1, 1
+		// the same block for every draw; its high-order half is zero so that rejection
+		// samplers (crypto/rand.Int) terminate on the first attempt whatever the modulus
+		fill(p, e.Key, 1, 1)
+		for i := 0; i < len(p)/2+1 && i < len(p); i++ {
+			p[i] = 0
+		}
+		e.bytes.Add(uint64(len(p)))
+		return len(p), nil
 	case EntErrAfter:
 		if g >= e.FailAt {
 			e.failed.Add(1)
